@@ -160,13 +160,19 @@ def wl_nldf_grad(p):
 
 
 def draw_eval_params(rng):
-    return {
+    p = {
         "kind": rng.choice(["rbf", "antisym", "spin"]),
         "n": _size(rng, [1, 2, 3, 5, 7, 16, 17, 31, 64, 100, 257], 300),
         "nctrl": rng.choice([1, 2, 5, 9, 23]),
         "nfeat": rng.choice([1, 2, 3, 6]),
         "dseed": rng.below(10**6),
     }
+    if rng.chance(0.12):
+        # production sizes (a grid block x a trained model): code may take another path above
+        # some amount of work (parallel `if` clauses, blocked variants)
+        p["n"] = rng.randint(4400, 20000)
+        p["nctrl"] = rng.choice([23, 40, 64])
+    return p
 
 
 def wl_evaluators(p):
@@ -210,8 +216,9 @@ def draw_sdmx_params(rng):
     p = _draw_sdmx_params(rng)
     if p["cutoff"] is not None and rng.chance(0.7):
         # a threshold only screens when whole blocks of points are far from an atom
-        p["spread"] = rng.choice([4.0, 8.0])
-        p["order"] = "radial"
+        p["spread"] = rng.choice([4.0, 8.0, 16.0])
+        # far blocks last, far blocks first, or near and far blocks interleaved
+        p["order"] = rng.choice(["radial", "radial_rev", "blockwise"])
     return p
 
 
@@ -245,8 +252,14 @@ def wl_sdmx(p):
     phase()
     nprng = np.random.default_rng(p["dseed"])
     coords = nprng.normal(size=(p["ngrids"], 3)) * p.get("spread", 1.5)
-    if p.get("order") == "radial":
+    if p.get("order") in ("radial", "radial_rev", "blockwise"):
         coords = np.ascontiguousarray(coords[np.argsort(np.linalg.norm(coords, axis=1))])
+        if p["order"] == "radial_rev":
+            coords = np.ascontiguousarray(coords[::-1])
+        elif p["order"] == "blockwise":
+            nb_ = (len(coords) + 55) // 56  # the evaluation block of the SDMX loops is 56 points
+            perm = nprng.permutation(nb_)
+            coords = np.ascontiguousarray(np.concatenate([coords[b_ * 56 : (b_ + 1) * 56] for b_ in perm]))
     nao = mol.nao_nr()
     out = {}
     nd = p["nset"] * p["nspin"]
@@ -305,6 +318,11 @@ def draw_plan_params(rng):
         "nspin": rng.choice([1, 2]),
         "smooth": rng.chance(0.4),
         "dseed": rng.below(10**6),
+        # top of the interpolation range: with the smooth cut-off switched on, exponents above it
+        # are legal input (they are what the option is for)
+        "amax": rng.choice([3e4, 3e4, 3e4, 300.0, 30.0, 4.0]),
+        # grid points of an atomic grid come ordered by radius: the large exponents sit together
+        "rho_order": rng.choice(["random", "random", "by_density", "by_density_rev"]),
     }
 
 
@@ -318,7 +336,8 @@ def wl_plan_coefs(p):
     cls = NLDFGaussianPlan if p["plan_type"] == "gaussian" else NLDFSplinePlan
     nl = st.nldf_settings
     alpha0 = nl.theta_params[0] / 64
-    lambd = float((3e4 / alpha0) ** (1.0 / (p["nalpha"] - 1)))
+    amax = float(p.get("amax", 3e4)) if p["smooth"] else 3e4
+    lambd = float((amax / alpha0) ** (1.0 / (p["nalpha"] - 1)))
     plan = cls(
         nl,
         p["nspin"],
@@ -334,6 +353,9 @@ def wl_plan_coefs(p):
     n = p["n"]
     nrho = 5 if nl.sl_level == "MGGA" else 4
     rho = _rho_data(nprng, nrho, n)
+    if p.get("rho_order", "random") != "random":
+        o_ = np.argsort(rho[0])
+        rho = np.ascontiguousarray(rho[:, o_[::-1] if p["rho_order"] == "by_density" else o_])
     out = {}
     rho_tuple = plan.get_rho_tuple(rho)
     nfid = plan.num_vj if hasattr(plan, "num_vj") else 0
@@ -358,6 +380,9 @@ def wl_plan_coefs(p):
     rho2[1:4] *= fac ** (4.0 / 3)
     if nrho > 4:
         rho2[4] *= fac ** (5.0 / 3)
+    if p.get("rho_order", "random") != "random":
+        o_ = np.argsort(rho2[0])
+        rho2 = np.ascontiguousarray(rho2[:, o_[::-1] if p["rho_order"] == "by_density" else o_])
     for i in ids:
         try:
             a2 = plan.get_interpolation_arguments(plan.get_rho_tuple(rho2), i=i)[0]
